@@ -1,0 +1,23 @@
+//go:build verif
+
+// Contracts for the gnmi_cli binary's request construction, checked by /verif/gvc
+// (comment-only file, compiled only under the build tag "verif").
+package main
+
+// The request text comes from -proto or from the file named by -proto_file, never both.
+//@ func protoRequestFromFlags
+//@   props C01 C12
+//@   requires protoFile != nil && reqProto != nil
+//@   ensures [inline-proto-when-no-file C01] deref(protoFile) == "" ==> res1 == nil && res0 == deref(reqProto)
+//@   ensures [both-refused C01] deref(protoFile) != "" && deref(reqProto) != "" ==> res1 != nil
+
+// Whatever request text the flags select - inline or from the file - is the text that is
+// parsed into the subscription (equivalent invocations yield the same query).
+//@ func executeSubscribe
+//@   props C01 C12
+//@   requires protoFile != nil && reqProto != nil && queryType != nil && queryFlag != nil && ctx != nil
+//@   modifies *
+//@   assert at call ParseSubscribeProto#0: [the-selected-request-text-is-the-one-parsed C01] arg0 == s && s != ""
+//@ func parseQuery
+//@   trusted
+//@   note body not verified: query-path tokenising
